@@ -146,7 +146,7 @@ def stateLines (msz : Nat) (l : Log) : List String :=
       | some p => recS p
       | none => "-"
     s!"S q={hex name} start={q.start} next={q.nextPosition} last={optS q.lastPosition} ff={optS q.firstFile} lr={lr} n={q.recs.length} recs={joinS "," recs}"
-  ql ++ [s!"S files={joinS "," (l.files.map toString)} used={l.queues.usedBytes msz} disk={l.diskUsed geom}"]
+  ql ++ [s!"F files={joinS "," (l.files.map toString)} disk={l.diskUsed geom}", s!"U used={l.queues.usedBytes msz}"]
 
 def dirLine (img : Image) : String :=
   "D " ++ joinS " " (img.map fun (f, c) => s!"{f}:{c.length}:{fnvS c}")
